@@ -16,11 +16,17 @@ func init() {
 		run.Rule = "histories of 1–5 requests on one container; 0–3 container, 0–2 service and 0–2 route filters of kind pass/stop/replace(new Request+Response)/middleware(HttpMiddlewareHandlerToFilter wrapping the writer), scripts that write, set headers and attributes, panic; all six entry points; every stage records the attributes, parameters, selected route path and response wrappers it sees; Spec.c06Holds (the event list Spec.chainLog demands) is evaluated on every real log; non-trivial = more than one stage ran"
 		serveMeta(run)
 		n := sizes(run, 700, 14000)
+		serve.SmallPayloads = true // the subject is the stage log, not the coding
+		defer func() { serve.SmallPayloads = false }()
 		p := serve.PropSpec{ID: "C06", SpecKey: "C06", Proj: serve.ProjLog}
 		if err := serve.Check(run, p, serve.GenOpts{Router: "curly", PanicPct: 3}, n, 5, "curly"); err != nil {
 			return err
 		}
-		return serve.Check(run, p, serve.GenOpts{Router: "jsr", PanicPct: 3}, n/2, 5, "jsr")
+		if err := serve.Check(run, p, serve.GenOpts{Router: "jsr", PanicPct: 3}, n/2, 5, "jsr"); err != nil {
+			return err
+		}
+		// "regardless of … concurrent requests": the same requests served concurrently, overlapping for certain
+		return serve.CheckConcurrent(run, p, serve.GenOpts{Router: "curly", PanicPct: 1}, n/2, 6)
 	}
 	checks["C07"] = func(run *report.Run) error {
 		run.Rule = "same generator as C06; payloads of 0 B–270 KB in 1–6 chunks, Accept-Encoding from a grammar (gzip, deflate, both orders, q-values, identity, x-gzip, upper case, garbage, absent), prior Content-Encoding on the writer, container/route encoding switches, four compressor providers behind a ledger; every coded body is decoded with compress/gzip or compress/zlib to EOF (a missing trailer is an error); Spec.c07Holds is evaluated on every real response"
